@@ -1,7 +1,7 @@
 """Per-property plans: which engines run which tier with how many shards,
 the non-triviality rule, assumptions and unexplored zones (DESIGN.md 5)."""
 
-R, D, M, A, V = "release", "debug", "miri", "asan", "valgrind"
+R, D, M, A, V, T = "release", "debug", "miri", "asan", "valgrind", "mt"
 
 
 def stages(quick, thorough):
